@@ -424,7 +424,10 @@ func (g *eventReceiver) listen() {
 		// Get the node from the event.Node meta data.
 		var n pilosa.Node
 		if err := g.papi.Serializer.Unmarshal(e.Node.Meta, &n); err != nil {
-			panic("failed to unmarshal event node meta into node")
+			// The meta is supplied by the peer; an undecodable one is
+			// that peer's problem, not a reason to stop this node.
+			g.logger.Printf("unmarshal event node meta (%s): %s", e.Node.Name, err)
+			continue
 		}
 
 		ne := &pilosa.NodeEvent{
@@ -433,7 +436,8 @@ func (g *eventReceiver) listen() {
 		}
 		buf, err := pilosa.MarshalInternalMessage(ne, g.papi.Serializer)
 		if err != nil {
-			panic(err)
+			g.logger.Printf("marshal node event: %s", err)
+			continue
 		}
 		if err := g.papi.ClusterMessage(context.Background(), bytes.NewBuffer(buf)); err != nil {
 			g.logger.Printf("receive event error: %s", err)
